@@ -7,7 +7,7 @@
 use std::f64::consts::PI;
 use std::{fmt, slice, vec};
 
-use itertools::{iproduct, Itertools};
+use itertools::iproduct;
 use nalgebra::Point2;
 use serde::{Deserialize, Serialize};
 
@@ -37,18 +37,78 @@ impl Intersect for MolecularShape2 {
         iproduct!(self.items.iter(), other.items.iter()).any(|(s, o)| s.intersects(o))
     }
     fn area(&self) -> f64 {
-        // TODO Implement an algorithm which takes into account multiple overlaps of circles, this
-        // naive implementation is just a temporary measure.
-        let total_area: f64 = self.items.iter().map(|a| PI * a.radius.powi(2)).sum();
-
-        let naive_overlap: f64 = self
-            .items
-            .iter()
-            .tuple_combinations()
-            .map(|(a1, a2)| Self::circle_overlap(a1, a2))
-            .sum();
-
-        total_area - naive_overlap
+        // The area of the union of the circles, whatever their overlaps: the boundary of the
+        // union consists of the arcs of each circle which lie outside every other circle, and
+        // the area enclosed by a closed curve is the integral of (x dy - y dx) / 2 along it.
+        let mut area = 0.;
+        for (index, atom) in self.items.iter().enumerate() {
+            let r = atom.radius;
+            // The arcs of this circle covered by another, as (start, end) angles within [0, 2 PI]
+            let mut covered: Vec<(f64, f64)> = vec![];
+            let mut swallowed = false;
+            for (other_index, other) in self.items.iter().enumerate() {
+                if other_index == index {
+                    continue;
+                }
+                let delta = other.position - atom.position;
+                let distance = delta.norm();
+                if distance >= r + other.radius {
+                    // Apart (or touching): nothing is covered
+                    continue;
+                }
+                if distance + r <= other.radius {
+                    // This circle lies within the other; of two identical circles the first counts
+                    if distance + other.radius > r || other_index < index {
+                        swallowed = true;
+                        break;
+                    }
+                    continue;
+                }
+                if distance + other.radius <= r {
+                    // The other circle lies within this one and covers none of its boundary
+                    continue;
+                }
+                // The circles cross: the covered arc is centred on the direction of the other
+                // circle, its half width follows from the position of the common chord
+                let along = (distance.powi(2) + r.powi(2) - other.radius.powi(2)) / (2. * distance);
+                let half = f64::atan2(f64::sqrt(f64::max(0., r.powi(2) - along.powi(2))), along);
+                let middle = f64::atan2(delta.y, delta.x);
+                let start = (middle - half).rem_euclid(2. * PI);
+                let end = start + 2. * half;
+                if end > 2. * PI {
+                    covered.push((start, 2. * PI));
+                    covered.push((0., end - 2. * PI));
+                } else {
+                    covered.push((start, end));
+                }
+            }
+            if swallowed {
+                continue;
+            }
+            if covered.is_empty() {
+                area += PI * r.powi(2);
+                continue;
+            }
+            covered.sort_by(|a, b| a.partial_cmp(b).unwrap_or(std::cmp::Ordering::Equal));
+            // Integrate along the arcs between the covered ones
+            let mut arc = |from: f64, to: f64| {
+                area += 0.5
+                    * (r.powi(2) * (to - from)
+                        + atom.position.x * r * (to.sin() - from.sin())
+                        - atom.position.y * r * (to.cos() - from.cos()));
+            };
+            let mut position = 0.;
+            for (start, end) in covered {
+                if start > position {
+                    arc(position, start);
+                }
+                position = f64::max(position, end);
+            }
+            if position < 2. * PI {
+                arc(position, 2. * PI);
+            }
+        }
+        area
     }
 }
 
@@ -100,10 +160,12 @@ impl fmt::Display for MolecularShape2 {
 }
 
 impl MolecularShape2 {
+    #[allow(dead_code)]
     fn overlap_area(r: f64, d: f64) -> f64 {
         r.powi(2) * f64::acos(d / r) - d * f64::sqrt(r.powi(2) - d.powi(2))
     }
 
+    #[allow(dead_code)]
     fn circle_overlap(a1: &Atom2, a2: &Atom2) -> f64 {
         let distance = nalgebra::distance(&a1.position, &a2.position);
         // One circle lies within the other, the overlap is the whole of the smaller circle
